@@ -97,6 +97,14 @@ def run(cx):
         cx.ob('RANGE', 'directed_angle:zero-stays-zero', rr0 is not None and not it0.problems and abs(rr0[0]) < 1e-12 and abs(rr0[1]) < 1e-12,
               'when the signed angle between the vectors is 0 the directed angle is 0 for Cw and for Ccw (the 2*pi correction applies to strictly negative angles only): "Cw + Ccw is a full turn or both are zero"',
               where=b.file, found=f'[{rr0[0]:.6g}, {rr0[1]:.6g}]' if rr0 else None)
+    # signed_angle is atan2(cross, dot) of its two arguments on EVERY path: a tolerance short-cut ("collinear -> 0") would report
+    # exactly opposite vectors as zero rotation, and both directed senses with it
+    b = cx.fn('geom2::angles2::signed_angle')
+    if b:
+        cx.expect('EXPR', 'signed_angle:formula', cx.retval(b),
+                  '(call f64::atan2 (sub (mul (field x (param v1)) (field y (param v2))) (mul (field x (param v2)) (field y (param v1)))) '
+                  '(add (mul (field x (param v1)) (field x (param v2))) (mul (field y (param v1)) (field y (param v2)))))',
+                  'signed_angle(v1, v2) = atan2(v1 x v2, v1 . v2) on every path (no early return, no tolerance branch: opposite vectors are a half turn, not zero)', where=b.file)
     # AngleInterval::new: both stored fields
     b = cx.fn('common::angles::AngleInterval::new')
     if b:
